@@ -7,7 +7,7 @@ from vlib.registry import COMMON_NOTE
 
 # 0 = the pinned upstream `sample` (finding F18 present), 1 = with proposed_fixes/C18-F18.patch applied
 # bit mask: 1 = F18 max-shift (in /repo since e3725cd97), 2 = proposed_fixes/C18-F18c.patch (greedy all -Inf -> error)
-FIX = int(os.environ.get("VERIF_C18_FIX", "1"))  # F18 fixed in /repo (e3725cd97)
+FIX = int(os.environ.get("VERIF_C18_FIX", "3"))  # bit mask: 1 = max shift (e3725cd97), 2 = greedy all -Inf error (F18c, 4a8f8bf0b)
 
 REGISTRATION = {
     "engine": "lean-sampler",
